@@ -258,7 +258,7 @@ func runStderrCase(c seCase, tmp string) map[string]interface{} {
 			line = "this is not a handshake line"
 		}
 		cfg.RunnerFunc = nil
-		cfg.Cmd = exec.Command("/bin/sh", "-c", `cat "$1" >&2; printf '%s\n' "$2"; exec sleep 30`, "sh", streamFile, line)
+		cfg.Cmd = exec.Command("/bin/sh", "-c", `cat "$1" >&2; printf '%s\n' "$2"; i=0; while [ $i -lt 40 ]; do echo "more on stdout $i"; i=$((i+1)); done; exec sleep 30`, "sh", streamFile, line)
 		cfg.Stderr = sw
 		cfg.StartTimeout = 20 * time.Second
 		module = "host.sh"
